@@ -377,3 +377,17 @@ Proof.
   split; [vm_compute; reflexivity|].
   vm_compute; reflexivity.
 Qed.
+
+(* the seven hypotheses about [inter] of part C are jointly satisfiable (so the theorems of part C
+   are not vacuous): a coarse intersection-area function -- the whole area for identical
+   footprints, 0 otherwise -- fulfils all of them *)
+Example C06_nonvacuous_inter_hypotheses : exists inter : box -> box -> Q,
+  (forall e g, box_valid e -> box_valid g -> 0 <= inter e g) /\
+  (forall e g, box_valid e -> box_valid g -> inter e g <= area_rect e) /\
+  (forall e g, box_valid e -> box_valid g -> inter e g <= area_rect g) /\
+  (forall e g, box_valid e -> box_valid g -> inter e g == inter g e) /\
+  (forall e g, box_valid e -> box_valid g -> same_bev e g -> inter e g == area_rect e) /\
+  (forall e g, box_valid e -> box_valid g -> boxes_disjoint e g -> inter e g == 0) /\
+  (forall m e g, motion_unit m -> box_valid e -> box_valid g ->
+     inter (move_box m e) (move_box m g) == inter e g).
+Proof. exists inter_toy. exact inter_toy_ok. Qed.
